@@ -369,10 +369,14 @@ def explore_dfs(name, line_level, bound, res, limit, part=None):
 # ------------------------------------------------------------------ renders
 RENDER_TEMPLATES = {
     "/base.html": "BASE[${next.body()}]${self.tail()}<%def name=\"tail()\">TAIL(${who})</%def>",
-    "/inc.html": "{inc:${who}}",
-    "/ns.html": '<%def name="nd(a)">ND(${a}|${who})</%def>',
-    "/main.html": '<%inherit file="/base.html"/><%namespace name="n" file="/ns.html"/>'
-                  'M(${who})<%include file="/inc.html"/>${n.nd(who)}${cd(who)}${sh()}\n'
+    # main lives in a subdirectory and names its include and its namespace RELATIVELY; same-named decoys sit at the
+    # root, where an unresolved relative URI would land
+    "/inc.html": "{ROOT-DECOY-inc:${who}}",
+    "/ns.html": '<%def name="nd(a)">ROOT-DECOY-ND(${a})</%def>',
+    "/sub/inc.html": "{inc:${who}}",
+    "/sub/ns.html": '<%def name="nd(a)">ND(${a}|${who})</%def>',
+    "/sub/main.html": '<%inherit file="/base.html"/><%namespace name="n" file="ns.html"/>'
+                  'M(${who})<%include file="inc.html"/>${n.nd(who)}${cd(who)}${sh()}\n'
                   '% for i in range(2):\n${loop.index}${who}\n% endfor\n'
                   '<%def name="cd(a)" cached="True" cache_key="k-${a}" cache_timeout="30" cache_type="tA">CD(${a})</%def>'
                   '<%def name="sh()" cached="True" cache_type="tB">SH</%def>',
@@ -385,7 +389,7 @@ def run_render_schedule(strategy, res, rc, nthreads=2, free=False):
     lk = _st["TemplateLookup"](cache_impl="c16dict")
     for u, t in RENDER_TEMPLATES.items():
         lk.put_string(u, t)
-    tpl = lk.get_template("/main.html")
+    tpl = lk.get_template("/sub/main.html")
     import sys as _sys1
 
     solo = {}
@@ -393,7 +397,7 @@ def run_render_schedule(strategy, res, rc, nthreads=2, free=False):
         lk2 = _st["TemplateLookup"](cache_impl="c16dict")
         for u, t in RENDER_TEMPLATES.items():
             lk2.put_string(u, t)
-        solo[i] = lk2.get_template("/main.html").render_unicode(who="W%d" % i)
+        solo[i] = lk2.get_template("/sub/main.html").render_unicode(who="W%d" % i)
     outs = {}
     del _sys1.modules["verif_c16_cache"].DictImpl.calls[:]
     if free:
